@@ -302,7 +302,8 @@ def pgpy_side(ctx, blobs, combos):
                             sig, subj = env.k.sign(b'', hash=kw_h, created=env.now()), ('doc', b'')
                         elif kind == 'text':
                             import pgpy
-                            t_ = 'a\r\nb\rc\n\nd'
+                            # every line-ending style, with and without trailing blanks before them (7.1: the blanks are not signed)
+                            t_ = ['a\r\nb\rc\n\nd', 'a \t\r\nb\t\r\n\r\nc  ', 'blanks then lf \nlf\t\n- dash \r\n', ' \r\n\t\r\nx\r\n', 'mixed \r\nlf \nend \t'][('MD5', 'SHA1', 'RIPEMD160', 'SHA224', 'SHA256', 'SHA384', 'SHA512').index(h) % 5]
                             sig, subj = env.k.sign(pgpy.PGPMessage.new(t_, cleartext=True), hash=kw_h, created=env.now()), ('text', t_)
                         else:
                             sig, subj = env.k.certify(env.k.userattributes[0], hash=kw_h, created=env.now()), ('cert', env.k, len(env.k.userids))
